@@ -182,6 +182,9 @@ class Sweep:
         if not any(k in self.items for k in keys):
             # Return an empty sweep with no dimensions if no items match the filter keys
             return Sweep({})
+        if self.exclude is None and len(self) == 0:
+            # An empty dimension that is filtered out still leaves no combination to project
+            return Sweep({})
 
         dims: list[str | tuple[str, ...]]
         if self.dims is None or set(self.dims) == self.items.keys():
